@@ -417,6 +417,9 @@ class Pair:
         while waited < cap:
             n = len(world.events)
             await asyncio.sleep(settle)
+            for _ in range(5):
+                # something delivered at this very instant must get its turn before we conclude that nothing happens
+                await asyncio.sleep(0)
             waited += settle
             if len(world.events) == n and self.link_idle():
                 return True
